@@ -164,6 +164,8 @@ func stopScenarios(c *core.Ctx, hidx int, planLen, ntx int, reps int) []stopScn 
 	for _, kind := range preconnKinds {
 		add(faultSpec{Kind: kind})
 	}
+	add(faultSpec{Kind: "cancel-during-set"})
+	add(faultSpec{Kind: "cancel-at-dial"})
 	add(faultSpec{Kind: "clean-eof"})
 	add(faultSpec{Kind: "clean-eof", Lock: true})
 	add(faultSpec{Kind: "read-error", At: 1 + r.Intn(400)})
@@ -209,6 +211,48 @@ func runStop(c *core.Ctx, s *run.Session, l *hist.Layout, start hist.Pos, scn st
 		s.Cancel()
 		ob.Res = rn.Wait(maxWait)
 		s.M.Release()
+		finishObs(s, ob, o)
+		return ob
+	case "cancel-during-set":
+		// the master is slow to answer SET @master_binlog_checksum; the caller
+		// cancels while the library waits for that answer
+		ob := &attemptObs{Spec: spec, Reader: "unknown", Handler: "fast"}
+		s.M.SetScripts(&sim.Script{End: sim.EndEOF, SetHold: true})
+		hs := run.NoFaults()
+		hs.InlineError = o.InlineError
+		rn := s.Start(hs, nil)
+		for i := 0; i < 4000; i++ {
+			conns := s.M.Conns()
+			if len(conns) > 0 && conns[len(conns)-1].Snapshot().HoldReached {
+				ob.Reached = true
+				break
+			}
+			select {
+			case <-rn.Done():
+				i = 4000
+			case <-time.After(250 * time.Microsecond):
+			}
+		}
+		s.Cancel()
+		ob.Res = rn.Wait(maxWait)
+		if ob.Res.Verdict != run.Returned {
+			// let the attempt go on so that nothing of it is left for the next scenario
+			s.M.Release()
+			select {
+			case <-rn.Done():
+			case <-time.After(maxWait):
+			}
+		}
+		finishObs(s, ob, o)
+		return ob
+	case "cancel-at-dial":
+		// the caller cancels at the moment the TCP connection is established,
+		// before the driver has armed its own watch of the context
+		ob := &attemptObs{Spec: spec, Reader: "unknown", Handler: "fast", Reached: true}
+		s.M.SetScripts(&sim.Script{End: sim.EndEOF})
+		hs := run.NoFaults()
+		hs.InlineError = o.InlineError
+		ob.Res = s.Attempt(hs, &xport.Options{AfterDial: s.Cancel}, maxWait)
 		finishObs(s, ob, o)
 		return ob
 	case "cancel-blocked":
